@@ -451,9 +451,9 @@ def correspond(ctx):
         _corr_batch(ctx, pool, "mo-reconstruct", "mo", enc_op, _work,
                     ([c1, a, c2] for c1 in C for a in A[:12] for c2 in C))
         _corr_batch(ctx, pool, "mo-random", "mo", enc_op, _work,
-                    [rand_seq(rng, ctx.n(8, 16)) for _ in range(ctx.n(8000, 120000))])
+                    [rand_seq(rng, ctx.n(8, 16)) for _ in range(ctx.n(25000, 150000))])
         _corr_batch(ctx, pool, "shl-random", "shl", shell_enc, _shell_work,
-                    [rand_shell_seq(rng, ctx.n(5, 8)) for _ in range(ctx.n(6000, 80000))])
+                    [rand_shell_seq(rng, ctx.n(5, 8)) for _ in range(ctx.n(12000, 80000))])
     ctx.extra_cov["exhaustive_depth"] = {"constructs": len(C), "assignment_alphabet": len(A), "assignments_per_sequence": depth}
 
 
@@ -675,7 +675,7 @@ def _unjs(ops):
 def search(ctx):
     rng = ctx.rng
     mult = 4 if ctx.escalated else 1
-    items = [("mo", _perturb(rng, rand_seq(rng, ctx.n(8, 16)))) for _ in range(ctx.n(6000, 100000) * mult)]
+    items = [("mo", _perturb(rng, rand_seq(rng, ctx.n(8, 16)))) for _ in range(ctx.n(15000, 100000) * mult)]
     if ctx.escalated or ctx.thorough:
         C, A = constructs(), assignments()
         items += [("mo", [c, a1, a2]) for c in C for a1 in A for a2 in A]
